@@ -58,3 +58,25 @@ Definition spec_fractions_of (sched : list (Z * meth)) (t : txs) : result (list 
   | Err e => Err e
   | Ok evs => spec_run (t_ins t) sched (map event_of evs)
   end.
+
+(** * the same pipeline under an explicitly given transfer-fee rule
+    [taxable_events] / [fractions_of] above select the transfers with [intra_is_taxable], which is re-translated from
+    IntraTransaction.is_taxable on every run.  The variants below take the rule as a parameter, so that statements about a
+    particular rule compile whatever the source says today.  [intra_is_taxable_fiat] is the rule before the repair of
+    finding F8 (`return self.fiat_fee > ZERO`, RP2Decimal's 13-decimal comparison): a fee whose fiat value is below 5e-14
+    was not taxed.  [intra_is_taxable_fee] is the repaired rule (`return self.crypto_fee > ZERO`, exact on the 1e-11 grid). *)
+Definition intra_is_taxable_fiat (a : intratx) : bool := dgtb (x_fiat_fee a) dzero.
+Definition intra_is_taxable_fee (a : intratx) : bool := x_crypto_fee a >? 0.
+
+Definition taxable_unsorted_by (rule : intratx -> bool) (t : txs) : list txn :=
+  map TIn (filter in_is_taxable (t_ins t)) ++ map TOut (filter out_is_taxable (t_outs t))
+  ++ map TIntra (filter rule (t_intras t)).
+Definition taxable_events_by (rule : intratx -> bool) (t : txs) : result (list txn) :=
+  let l := taxable_unsorted_by rule t in
+  if has_dup (map t_row l) then Err EDup else Ok (sort_by t_us l).
+Definition fractions_of_by (rule : intratx -> bool) (always_repush : bool) (sched : list (Z * meth)) (t : txs)
+  : result (list fraction) :=
+  match taxable_events_by rule t with
+  | Err e => Err e
+  | Ok evs => run_matcher always_repush (t_ins t) sched (map event_of evs)
+  end.
